@@ -71,10 +71,17 @@ def name(a):
 # expressions
 
 
+class Env(list):
+    """environment of a function body; [kw] is the value of its keyword parameter, if it has one"""
+    kw = None
+
+
 def ev(e, env):
     t = e[0]
     if t == "k":
         return jnp.float32(e[1])
+    if t == "kwv":
+        return env.kw
     if t == "v":
         return env[e[1]]
     if t == "add":
@@ -109,26 +116,45 @@ def build(g, kw=False):
     if t == "fn":
         body = g[1]
 
+        kwc = g[2]["kw"] if len(g) > 2 else None      # literal passed for the function's own keyword parameter
+
         def run(env):
             p = body
             while p[0] == "call":
                 _, a, sub, argexprs, k = p
                 vals = [ev(x, env) for x in argexprs]
+                extra = {}
+                callee = sub[2] if sub[0] == "scan" else sub     # a Scan forwards keyword arguments to its callee
+                if callee[0] == "fn" and len(callee) > 2:
+                    extra["kwv"] = jnp.float32(callee[2]["kw"])
                 if kw_site(a, sub, argexprs):
-                    r = build(sub, kw=True)(*vals[:-1], kwlast=vals[-1]) @ name(a)
+                    r = build(sub, kw=True)(*vals[:-1], kwlast=vals[-1], **extra) @ name(a)
                 else:
-                    r = build(sub)(*vals) @ name(a)
+                    r = build(sub)(*vals, **extra) @ name(a)
                 env.append(r)
                 p = k
             return ev(p[1], env)
 
+        def mkenv(vals, kwv):
+            env = Env(vals)
+            env.kw = kwv
+            return env
+
+        if kw and kwc is not None:
+            def src_kw2(*args, kwlast=7.0, kwv=7.0):      # defaults the call site always overrides
+                return run(mkenv(list(args) + [kwlast], kwv))
+            return gen(src_kw2)
         if kw:
-            def src_kw(*args, kwlast=7.0):      # a default the call site always overrides
-                return run(list(args) + [kwlast])
+            def src_kw(*args, kwlast=7.0):
+                return run(mkenv(list(args) + [kwlast], None))
             return gen(src_kw)
+        if kwc is not None:
+            def src_kwv(*args, kwv=7.0):
+                return run(mkenv(list(args), kwv))
+            return gen(src_kwv)
 
         def src(*args):
-            return run(list(args))
+            return run(mkenv(list(args), None))
 
         return gen(src)
     if t == "cond":
@@ -384,7 +410,10 @@ class ProgGen:
             return ["dist", rng.choice(self.dkinds)], [self.sexpr(env, 1), self.sexpr(env, 2)], "S"
         if k == "fn":
             m = rng.choice([1, 2, 3])
-            return self.fn(["S"] * m, depth), [self.sexpr(env, 2) for _ in range(m)], "S"
+            f = self.fn(["S"] * m, depth)
+            if rng.random() < 0.25:
+                f = self.with_kw(f)
+            return f, [self.sexpr(env, 2) for _ in range(m)], "S"
         if k == "cond":
             g, m = self.cond(depth)
             chk = ["gt", self.sexpr(env, 1), self.sexpr(env, 1)]
@@ -394,7 +423,7 @@ class ProgGen:
             args = [self.aexpr(env, n) if b else self.sexpr(env, 1) for b in axes]
             return g, args, ("A", n)
         if k == "scan":
-            g, n = self.scan(depth)
+            g, n = self.scan(depth, allow_kw=True)      # a call site in a function body: it passes the keyword
             return g, [self.sexpr(env, 1), self.aexpr(env, n)], ("P", n)
         raise ValueError(k)
 
@@ -476,10 +505,25 @@ class ProgGen:
             callee = self.fn(["S"] * m, depth)
         return ["vmap", n, axes, callee, given], n, axes
 
-    def scan(self, depth):
+    def with_kw(self, fn):
+        """give the function a keyword parameter (call sites pass a literal != the default 7) that shifts the
+        parameter of its first distribution site, or its return value"""
+        c = self.rng.choice([-2, -1, 1, 2, 3])
+        p = fn[1]
+        if p[0] == "call" and p[2][0] == "dist" and len(p[3]) == 2:
+            p = ["call", p[1], p[2], [p[3][0], ["add", p[3][1], ["kwv"]]], p[4]]
+        elif p[0] == "ret" and p[1][0] not in ("tup",):
+            p = ["ret", ["add", p[1], ["kwv"]]]
+        else:
+            return fn
+        return ["fn", p, {"kw": c}]
+
+    def scan(self, depth, allow_kw=False):
         rng = self.rng
         n = rng.choice([0, 1, 2, 2, 3])
         callee = self.fn(["S", "S"], depth, ret="CO")
+        if allow_kw and rng.random() < 0.35:
+            callee = self.with_kw(callee)
         return ["scan", n, callee], n
 
     def mixture(self):
